@@ -697,6 +697,20 @@ func lexLongSources(r *rand.Rand, thorough bool) []string {
 	if thorough {
 		lens = append(append([]int{}, lens...), 4095, 4096, 4097, 65535, 65536, 70000)
 	}
+	// beyond 1000 runes only the single-token forms (lexing is quadratic in the number of tokens
+	// on both sides: a 70 000-token input would take hours)
+	single := func(n int, xs []string) []string {
+		if n <= 1000 {
+			return xs
+		}
+		var ys []string
+		for _, x := range xs {
+			if strings.Count(x, " ")+strings.Count(x, "\n")+strings.Count(x, "+")+strings.Count(x, "(")+strings.Count(x, ".")+strings.Count(x, "<")+strings.Count(x, "-")+strings.Count(x, "?")+strings.Count(x, ",") < 8 {
+				ys = append(ys, x)
+			}
+		}
+		return ys
+	}
 	var out []string
 	rep := func(s string, n int) string { return strings.Repeat(s, n) }
 	for _, n := range lens {
@@ -704,23 +718,23 @@ func lexLongSources(r *rand.Rand, thorough bool) []string {
 		if d[0] == '0' {
 			d = "1" + d[1:]
 		}
-		out = append(out,
-			d,                        // integer
-			"1"+rep("0", n-1)+" + 1", // 10…0
-			"0."+g.digits(n),         // fraction
-			"1."+g.digits(n/2)+"e"+g.digits(n/2+1), // fraction and exponent
-			"1e"+g.digits(n),                       // exponent
-			"0x1"+rep("aF", n/2), "0b1"+rep("01", n/2), "0o1"+rep("07", n/2),
-			"x"+rep("y1_", n/3+1), rep("é", n), "_"+rep("中", n), // identifiers
-			"true"+rep("x", n), rep("a", n)+" and "+rep("b", n),
-			`"`+rep("a", n)+`"`, `"`+rep(`\n`, n/2)+`"`, `"`+rep("é", n)+`" x`, `"`+rep(`\u00e9`, n/6+1)+`"`,
-			"`"+rep("r", n)+"`", "`"+rep("a\n", n/2)+"` z", "'"+rep("2", n)+"'",
-			`"`+rep("a", n), "'"+rep("b", n), // unterminated
-			rep(" ", n)+"a"+rep("\n", n)+"b", rep("\t", n)+"1", // white space runs
-			rep("+", n), rep("<", n)+"a", rep("-", n)+">", "a"+rep(".", n)+"b", rep("?", n), // operator runs
-			rep("a ", n), rep("1+", n)+"1", rep("(", n)+"x"+rep(")", n), rep("[1,", n)+"2"+rep("]", n), // many tokens
+		out = append(out, single(n, []string{
+			d,                            // integer
+			"1" + rep("0", n-1) + " + 1", // 10…0
+			"0." + g.digits(n),           // fraction
+			"1." + g.digits(n/2) + "e" + g.digits(n/2+1), // fraction and exponent
+			"1e" + g.digits(n),                           // exponent
+			"0x1" + rep("aF", n/2), "0b1" + rep("01", n/2), "0o1" + rep("07", n/2),
+			"x" + rep("y1_", n/3+1), rep("é", n), "_" + rep("中", n), // identifiers
+			"true" + rep("x", n), rep("a", n) + " and " + rep("b", n),
+			`"` + rep("a", n) + `"`, `"` + rep(`\n`, n/2) + `"`, `"` + rep("é", n) + `" x`, `"` + rep(`\u00e9`, n/6+1) + `"`,
+			"`" + rep("r", n) + "`", "`" + rep("a\n", n/2) + "` z", "'" + rep("2", n) + "'",
+			`"` + rep("a", n), "'" + rep("b", n), // unterminated
+			rep(" ", n) + "a" + rep("\n", n) + "b", rep("\t", n) + "1", // white space runs
+			rep("+", n), rep("<", n) + "a", rep("-", n) + ">", "a" + rep(".", n) + "b", rep("?", n), // operator runs
+			rep("a ", n), rep("1+", n) + "1", rep("(", n) + "x" + rep(")", n), rep("[1,", n) + "2" + rep("]", n), // many tokens
 			rep("a.b ", n/2), rep("x\n", n), rep("非 ", n),
-		)
+		})...)
 	}
 	return out
 }
